@@ -23,6 +23,39 @@ CHECKS = {
         'against each other on valid, malformed and over-deep inputs.',
    note=TB + 'Reductions (tree_reduce/sum/max/min/all/any) and tree_flatten_with_accessor are checked on the implementation only (they are one-line compositions in ops.py). Known finding K1 is matched by structure (entries/children mismatch with a failing descendant) and outcome pattern (only tree_iter differs, with RuntimeError).',
    design='§7 C03'),
+ 'C05': dict(
+   technique='Coq proof (trace monad over the mapped function) + extracted-model correspondence of results and call traces + oracle on all map variants',
+   text='Theorems: for every total f, tree_map calls f exactly on the rows (leaf_i(t), sub_i(rest_1), ...) once per leaf in flatten order and returns the treespec of t filled with f\'s values; '
+        'a rest that is not a suffix stops the map before any call; the underscore variant returns the original tree. The run compares result and full call trace (argument identities) with the model '
+        'for 0-3 rests (true suffixes with differing dict kind/order/maxlen, one-node edits, leaves) and four function behaviours including raising at call k, and checks the with_path/with_accessor/underscore variants, identity copy, traverse and walk on the implementation.',
+   note=TB + 'The with_path/with_accessor variants, traverse and walk are checked on the implementation only (against tree_map and the treespec paths); map(f∘g)=map(f)∘map(g) is not separately checked.',
+   design='§7 C05'),
+ 'C06': dict(
+   technique='Coq proof (lock-step decoding of two node arrays; counters determined by structure) + extracted-model correspondence + route-independence oracle',
+   text='Theorems: == is exactly node-wise agreement of (kind, arity, registration, node data) with equal none_is_leaf and compatible namespaces; reflexive, symmetric, transitive within pairwise-compatible namespaces '
+        '(refuted across \'a\', \'\', \'b\'); a == b implies the two treespecs feed the identical sequence of values to the hash (for all decodable arrays with consistent counters, in particular everything flatten produces); '
+        'the same law is refuted for the variant that hashes the namespace (defect F1, fixed). The run compares ==, both directions, with the model on derived pairs and checks hash/set/dict-key behaviour and six construction routes on the implementation.',
+   note=TB + 'Hash values themselves are not modelled: the theorem is about the sequence fed to HashCombine (a function of which the hash is), and the run checks hash equality patterns.',
+   design='§7 C06'),
+ 'C07': dict(
+   technique='Coq proof (order laws on structured treespecs) + three-way correspondence/oracle (flatten_up_to, is_prefix, prefix_errors) against the tree-level model',
+   text='Theorems (partial, see level_note): is_prefix is reflexive and never strictly so on itself; a leaf is a prefix of everything; a < b iff a <= b and some leaf of a is a non-leaf of b; prefixes need equal none_is_leaf and compatible namespaces. '
+        'The run compares is_prefix (both directions, strict and not) and flatten_up_to with the model on derived pairs (true suffixes, dict-kind/key-order/maxlen variations, one-edit near misses, unrelated) and checks on the implementation: three-way agreement with prefix_errors, only ValueError, the partition of leaves, subtree-at-path, converses, transitivity on chains.',
+   note=TB + 'PARTIAL: transitivity, antisymmetry up to dict equivalence, and flatten_up_to <-> is_prefix <-> prefix_errors are NOT proved in Coq; they are decided by the differential run (tree-level model vs the C++ index walks incl. the sibling re-ordering block, and the Python prefix_errors).',
+   design='§7 C07'),
+ 'C09': dict(
+   technique='Coq proof (node-level laws of the join) + extracted-model correspondence of full result arrays and of the Python broadcast family + lattice-law oracle',
+   text='Theorems (partial): a leaf is replaced by the other operand\'s subtree on either side; where both operands are internal nodes the result carries the first operand\'s kind, key order, custom path entries, registration and original keys; '
+        'option mismatches raise ValueError; the result namespace is the documented merge. The run compares broadcast_to_common_suffix in both argument orders (entire node arrays incl. node_entries and original_keys), '
+        'tree_broadcast_prefix, broadcast_prefix, tree_broadcast_common and broadcast_common with the model, and checks upper bound, order independence up to dict kind/order, idempotence, prefix-absorption, operands unchanged, the path-prefix law and tree_broadcast_map on the implementation.',
+   note=TB + 'PARTIAL: "least upper bound" and two-pass sufficiency for n trees are not proved in Coq (upper bound / idempotence / absorption are checked by the oracle on every generated pair).',
+   design='§7 C09'),
+ 'C10': dict(
+   technique='Coq proof (list lemma on chunks/zip for all m, n) + extracted-model correspondence + oracle on the transpose_map family',
+   text='Theorems: for all m, n > 0 and every list of m*n leaves, the value at (inner j, outer i) of the transposed grouping is the value at (outer i, inner j); the grouping has n rows of m; empty structures, none_is_leaf mismatch and incompatible namespaces raise ValueError and a wrong leaf count TypeError. '
+        'The run compares tree_transpose and transposing back with the model on composed, edited and unrelated trees and checks the index law, involution and the tree_transpose_map family (given/inferred inner structure, with_path, with_accessor, varying inner shape rejected) on the implementation.',
+   note=TB + 'tree_transpose only checks the leaf COUNT of its input (as the code does); the model is faithful to that.',
+   design='§7 C10'),
  'C08': dict(
    technique='Coq proof (decode/encode of the post-order array, structural induction on treespecs) + extracted-model correspondence',
    text='Theorems: flatten always yields the encoding of a well-formed structured treespec (decode . encode = id); children counts sum to the parent; '
